@@ -22,7 +22,7 @@ use bitcoin::{OutPoint, ScriptBuf, Transaction, TxOut, Txid};
 use lightning::chain::chaininterface::{BroadcasterInterface, ConfirmationTarget, TransactionType};
 use lightning::chain::channelmonitor::{Balance, ChannelMonitor};
 use lightning::chain::BlockLocator;
-use lightning::events::bump_transaction::sync::{BumpTransactionEventHandlerSync, WalletSync};
+use lightning::events::bump_transaction::sync::BumpTransactionEventHandlerSync;
 use lightning::events::bump_transaction::BumpTransactionEvent;
 use lightning::events::Event;
 use lightning::ln::chan_utils;
@@ -32,7 +32,7 @@ use lightning::sign::{OutputSpender, SpendableOutputDescriptor};
 use lightning::util::ser::ReadableArgs;
 use lightning::util::test_channel_signer::TestChannelSigner;
 use lightning::util::test_utils::{TestFeeEstimator, TestKeysInterface, TestLogger, TestWalletSource};
-use lightning::util::wallet_utils::WalletSourceSync;
+use lightning::util::wallet_utils::{WalletSourceSync, WalletSync};
 use std::collections::{BTreeMap, BTreeSet, HashMap};
 use std::sync::{Arc, Mutex};
 use vcore::{CaseResult, Failure};
@@ -322,7 +322,13 @@ impl StaleX {
 	}
 
 	fn pump(&mut self) {
-		for ev in self.mon.get_and_clear_pending_events() {
+		let evs = std::cell::RefCell::new(vec![]);
+		let collect = |e: Event| -> Result<(), lightning::events::ReplayEvent> {
+			evs.borrow_mut().push(e);
+			Ok(())
+		};
+		let _ = self.mon.process_pending_events(&&collect, &self.logger);
+		for ev in evs.into_inner() {
 			if let Event::BumpTransaction(b) = &ev {
 				if let BumpTransactionEvent::HTLCResolution { .. } = b {
 					self.handler.handle_event(b);
@@ -395,6 +401,21 @@ impl Sim {
 				i += 1;
 			}
 		}
+	}
+
+	/// Process only the ChainMonitor's events of `node` (SpendableOutputs, BumpTransaction). The
+	/// ChannelManager's own events (payment failures etc.) are left queued: C06 processes them at the very
+	/// end, see c06.rs.
+	pub fn c06_monitor_events(&mut self, node: usize) -> usize {
+		let mevs = self.w.nodes[node].chain_monitor.chain_monitor.get_and_clear_pending_events();
+		for ev in mevs.iter() {
+			self.rec(SEvent::Ldk { node, ev: ev.clone() });
+			if let Event::BumpTransaction(bump) = ev {
+				self.w.nodes[node].bump_tx_handler.handle_event(bump);
+			}
+		}
+		self.drain(node);
+		mevs.len()
 	}
 
 	pub fn height_of(&self, node: usize) -> u32 {
@@ -658,6 +679,15 @@ impl JusticeOracle {
 		let st = self.statuses(sim, tip);
 		for (op, val, s) in st.iter() {
 			if let Status::Open(t) = s {
+				// discriminate the case "V's aggregated claim containing this output was invalidated because X
+				// confirmed a second-stage transaction on another input of it, and V never issued a new claim"
+				let split = self.v_txs.iter().any(|j| {
+					j.input.iter().any(|i| i.previous_output == *t)
+						&& j.input.iter().any(|i| i.previous_output != *t && sim.chain.spent_by.get(&i.previous_output).map(|sp| !self.v_txids.contains(sp)).unwrap_or(false))
+				});
+				if split {
+					return Err(fail("x-keeps-output", format!("output {} ({} sat) of the revoked commitment: V's aggregated claim was invalidated when X confirmed a second-stage transaction on another input, and V never re-issued a claim for {} ({} sat at stake)", op, val, t, self.prevout(sim, t).map(|o| o.value.to_sat()).unwrap_or(0))).with_key("x-keeps-output/abandoned-after-split"));
+				}
 				return Err(fail("x-keeps-output", format!("output {} ({} sat) of the revoked commitment was never taken by V: {} is unspent at the end (X's CSV {} would let X sweep it)", op, val, t, self.tk.contest_delay)).with_key(if t == op { "x-keeps-output/commitment" } else { "x-keeps-output/second-stage" }));
 			}
 		}
